@@ -208,6 +208,13 @@ func baseEnv() []string {
 
 func run(dir string, timeout time.Duration, name string, args ...string) ([]byte, error) {
 	cmd := exec.Command(name, args...)
+	if b := filepath.Base(name); (b == "bgp.test" || b == "cfg.test") && os.Getenv("VERIF_NO_MEMLIMIT") == "" {
+		// engine processes get an address space limit: a DUT that allocates what its input claims
+		// (C27) dies with "out of memory" (reported as a crash of the run) instead of taking the
+		// machine down. Not for the race build: the race detector reserves terabytes of shadow memory.
+		sh := `ulimit -v 4000000 2>/dev/null; exec "$0" "$@"`
+		cmd = exec.Command("/bin/bash", append([]string{"-c", sh, name}, args...)...)
+	}
 	cmd.Dir = dir
 	cmd.Env = baseEnv()
 	var buf bytes.Buffer
